@@ -3,9 +3,10 @@ import AasVerif.Model.Expr.Infer
 /-!
 Run-time values against inferred types: `HasTy D v τ` ("`v` inhabits `τ`", `None` only under
 `Optional` — and as the value of the statement type `None`), `Conforms` (the evaluation
-environment conforms to the typing environment) and the assumptions about the *parameters*
-of the evaluation (`Env.funs`, `Env.meths`, `FloatOps`, `fmtOther`), which are not expressions
-of the language.
+environment conforms to the typing environment), well-formed declarations (`Decls.WF`, with the
+decidable `Decls.wfb` that the harness evaluates on the declarations of every real symbol table)
+and the assumptions about the *parameters* of the evaluation (`Env.funs`, `Env.meths`, `FloatOps`,
+`fmtOther`), which are not expressions of the language.
 -/
 namespace AasVerif.Expr
 
@@ -28,18 +29,13 @@ inductive HasTy (D : Decls) : Val → Ty → Prop where
       D.findOur e = some (.enum lits) → l ∈ lits → HasTy D (.enumLit e l) (.our e)
   | enumCls {e : Text} {lits : List Text} :
       D.findOur e = some (.enum lits) → HasTy D (.enumCls e lits) (.enumType e)
-  | cprim {n : Text} {p : Prim} {v : Val} :
-      D.findOur n = some (.cprim p) → p ≠ .none → HasTy D v (.prim p) → HasTy D v (.our n)
+  | cprim {n : Text} {p : Prim} {k : Bool} {ds : List Text} {v : Val} :
+      D.findOur n = some (.cprim p k ds) → p ≠ .none → HasTy D v (.prim p) → HasTy D v (.our n)
   | inst {c : Text} {cd : ClassDecl} {oid : Nat} {d : Text} {fields : List (Text × Val)} :
       D.findOur c = some (.cls cd) →
       (∀ p τ, assoc p cd.props = some τ → (lookup p fields).isSome = true) →
       (∀ p τ v, assoc p cd.props = some τ → lookup p fields = some v → HasTy D v τ) →
       HasTy D (.inst oid d fields) (.our c)
-
-/-- function-like types: their names are not variables of the evaluation environment -/
-def Ty.isFn : Ty → Bool
-  | .verif .. | .builtin .. | .method .. => true
-  | _ => false
 
 /-- declared types (of properties): never a function, not even under `Optional` -/
 def Ty.isValTy : Ty → Bool
@@ -47,33 +43,64 @@ def Ty.isValTy : Ty → Bool
   | .opt τ => τ.isValTy
   | _ => true
 
-/-- Well-formed declarations: properties have value types. -/
-def Decls.WF (D : Decls) : Prop :=
-  ∀ c cd p τ, D.findOur c = some (.cls cd) → assoc p cd.props = some τ → τ.isValTy = true
+/-- Well-formed declarations. -/
+structure Decls.WF (D : Decls) : Prop where
+  /-- properties have value types -/
+  props : ∀ c cd p τ, D.findOur c = some (.cls cd) → assoc p cd.props = some τ → τ.isValTy = true
+  /-- a descendant is a class that has the properties of its ancestor, with the same types -/
+  sub : ∀ t cd c, D.findOur t = some (.cls cd) → c ∈ cd.descendants →
+    ∃ cd', D.findOur c = some (.cls cd') ∧ ∀ p τ, assoc p cd.props = some τ → assoc p cd'.props = some τ
+  /-- a constrained primitive constrains a primitive type of the meta-model -/
+  cprim : ∀ n q k ds, D.findOur n = some (.cprim q k ds) → q ≠ .none
+
+/-- `Decls.WF`, decidable: evaluated by the harness on the declarations of every symbol table. -/
+def Decls.wfb (D : Decls) : Bool :=
+  D.ours.all fun (_, d) =>
+    match d with
+    | .cls cd =>
+      cd.props.all (fun (_, τ) => τ.isValTy) &&
+      cd.descendants.all (fun c =>
+        match D.findOur c with
+        | some (.cls cd') => cd.props.all (fun (p, τ) => assoc p cd'.props == some τ)
+        | _ => false)
+    | .enum _ => true
+    | .cprim q _ _ => q != .none
 
 /-- The values conform to the declared types: every variable of the typing environment that is
 not a function has a value of its type. -/
 def Conforms (ρ : Env) (Γ : TEnv) : Prop :=
   ∀ x τ, Γ.find x = some τ → τ.isFn = true ∨ ∃ v, lookup x ρ.vars = some v ∧ HasTy Γ.decls v τ
 
-/-- The parameters of the evaluation never raise `AttributeError` on `None` themselves. -/
-structure EnvSafe (ρ : Env) : Prop where
-  funs : ∀ n f vs, ρ.funs n = some f → f vs ≠ .noneDeref
-  meths : ∀ r n f vs, ρ.meths r n = some f → f vs ≠ .noneDeref
-  cmp : ∀ op a b, ρ.fops.cmp op a b ≠ .noneDeref
-  arith : ∀ ad a b, ρ.fops.arith ad a b ≠ .noneDeref
-  fmt : ∀ v, ρ.fmtOther v ≠ .noneDeref
+/-- The float operations and the formatting behave as CPython's: comparing two numbers gives a
+`bool`, adding / subtracting two floats gives a float (no exception: overflow is `inf`), formatting
+never raises. -/
+structure EnvOK (ρ : Env) : Prop where
+  cmp : ∀ op a b, a.isNum = true → b.isNum = true → ∃ r, ρ.fops.cmp op a b = .val (.bool r)
+  arith : ∀ ad (x y : Text), ∃ r, ρ.fops.arith ad (.float x) (.float y) = .val (.float r)
+  fmt : ∀ v, ∃ s, ρ.fmtOther v = .val (.str s)
 
-/-- Functions and methods return values of their declared return type — whatever the arguments
-(the inferrer does not check the arguments, so nothing can be assumed about them). -/
-structure CallsConform (ρ : Env) (Γ : TEnv) : Prop where
-  /-- every verification function in scope is implemented -/
-  impl : ∀ n m ret, Γ.find n = some (.verif m ret) → (ρ.funs n).isSome = true
-  /-- built-in functions (`len`) return primitives -/
-  builtin : ∀ n m ret, Γ.find n = some (.builtin m ret) → ∃ p, ret = .prim p
-  funs : ∀ n m ret f vs v, (Γ.find n = some (.verif m ret) ∨ Γ.find n = some (.builtin m ret)) →
-    ρ.funs n = some f → f vs = .val v → HasTy Γ.decls v ret
-  meths : ∀ r c cd n ret f vs v, HasTy Γ.decls r (.our c) → Γ.decls.findOur c = some (.cls cd) →
-    assoc n cd.methods = some ret → ρ.meths r n = some f → f vs = .val v → HasTy Γ.decls v ret
+/-- the values have the types, one by one -/
+inductive ArgsHave (D : Decls) : List Val → List Ty → Prop where
+  | nil : ArgsHave D [] []
+  | cons {v : Val} {τ : Ty} {vs : List Val} {τs : List Ty} :
+      HasTy D v τ → ArgsHave D vs τs → ArgsHave D (v :: vs) (τ :: τs)
+
+/-- a value of the type, or `IndexError` (which no type system can exclude) -/
+def OutOK (D : Decls) (o : Out) (τ : Ty) : Prop := o = .indexError ∨ ∃ v, o = .val v ∧ HasTy D v τ
+
+/-- Functions and methods: implemented, and on arguments of their *declared* argument types they
+return a value of their declared return type (or raise `IndexError`).  Nothing is assumed about
+other arguments — the inferrer now refuses them. -/
+structure CallsOK (ρ : Env) (Γ : TEnv) : Prop where
+  /-- the names of functions are not variables of the evaluation environment -/
+  notVar : ∀ n τ, Γ.find n = some τ → τ.isFn = true → lookup n ρ.vars = none
+  /-- the one built-in function is `len`, and no global function shadows it -/
+  builtin : ∀ n m ret, Γ.find n = some (.builtin m ret) →
+    n = lenName ∧ m = lenName ∧ ret = .prim .length ∧ ρ.funs n = none
+  funs : ∀ n m ret f, Γ.find n = some (.verif m ret) → Γ.decls.findFn m = some f →
+    ∃ g, ρ.funs n = some g ∧ ∀ vs, ArgsHave Γ.decls vs f.params → OutOK Γ.decls (g vs) ret
+  meths : ∀ r c cd n ret ps, HasTy Γ.decls r (.our c) → Γ.decls.findOur c = some (.cls cd) →
+    assoc n cd.methods = some ret → assoc n cd.mparams = some ps →
+    ∃ g, ρ.meths r n = some g ∧ ∀ vs, ArgsHave Γ.decls vs ps → OutOK Γ.decls (g vs) ret
 
 end AasVerif.Expr
